@@ -72,6 +72,110 @@ def c14_key(key, orc):
         return 'head:' + key[len('reader:'):]
     return key
 
+def two_savers(run, rng, n):
+    """Two threads save the position of one reader at the same time (a periodic checkpoint thread and the thread that
+    closes the reader): the second saver is started when the first is about to rename its temp file and is given 50 ms;
+    if it gets as far as creating its own temp file it is held there until the first saver's rename is done.  The head
+    file as it is right after that rename (where a kill would leave it) and at the end must hold one of the positions
+    saved, no save may raise, and a restart from the head delivers exactly the records not yet read."""
+    import tempfile, shutil, threading, os as real_os
+    RollLog = K.RL.RollLog
+    for i in range(n):
+        root = tempfile.mkdtemp(prefix='verif_c14_2s_')
+        K.CONC.pre_rename = K.CONC.post_rename = K.CONC.tmp_opened = None
+        try:
+            logs, head = real_os.path.join(root, 'logs'), real_os.path.join(root, 'head.json')
+            K.CLOCK.us = 10 ** 12
+            mode = rng.choice(['txt', 'json', 'binl'])
+            w = RollLog(logs, mode, file_size=rng.choice([5, 50, 10 ** 6]), total_size=10 ** 6, utc=True)
+            recs = [('rec%02d' % j) if mode == 'txt' else {'n': j} if mode == 'json' else b'rec%02d' % j for j in range(9)]
+            for r in recs:
+                K.CLOCK.us += 1000
+                w.write(r, K.CLOCK.us / 1_000_000)
+            w.close()
+            K.CLOCK.us += 10 ** 6
+            rd = RollLog(logs, mode, rdonly=True, head=head, utc=True)
+            k1, k2 = rng.randrange(1, 4), rng.randrange(1, 4)
+            for _ in range(k1):
+                rd.read()
+            rd.write_head()
+            pos_a = json.load(open(head))
+            for _ in range(k2):
+                rd.read()
+            pos_b = list(rd.tell())
+            errs, threads, snap = [], [], []
+            opened, resume = threading.Event(), threading.Event()
+            main_thread = threading.current_thread()
+            def second():
+                try:
+                    rd.write_head()
+                except BaseException as e:      # noqa
+                    errs.append('second saver raised %r' % (e,))
+            def pre(a, b):
+                if not threads:
+                    t = threading.Thread(target=second, daemon=True)
+                    threads.append(t)
+                    t.start()
+                    opened.wait(0.05)
+            def post(a, b):
+                if threading.current_thread() is main_thread and not snap:
+                    try:
+                        snap.append(open(head).read())
+                    except Exception as e:      # noqa
+                        snap.append('unreadable %r' % (e,))
+                    resume.set()
+            def tmp_opened():
+                if threading.current_thread() is not main_thread:
+                    opened.set()
+                    resume.wait(2)
+            K.CONC.pre_rename, K.CONC.post_rename, K.CONC.tmp_opened = pre, post, tmp_opened
+            try:
+                rd.write_head()
+            except BaseException as e:      # noqa
+                errs.append('first saver raised %r' % (e,))
+            resume.set()
+            for t in threads:
+                t.join(5)
+            K.CONC.pre_rename = K.CONC.post_rename = K.CONC.tmp_opened = None
+            case = dict(mode=mode, read_then_saved=k1, read_more=k2, saved_before=pos_a, position=pos_b)
+            def valid(text):
+                try:
+                    return json.loads(text.strip()) in (pos_a, pos_b)
+                except Exception:      # noqa
+                    return False
+            for text in snap:
+                if not valid(text):
+                    run.violation('head:corrupt:concurrent-savers', 'two threads save the position at the same time; right after the first '
+                                  'rename the head file holds %r - neither the position saved before (%r) nor the new one (%r): a process '
+                                  'killed here cannot restart' % (text[:60], pos_a, pos_b), dict(case=case))
+            for e in errs:
+                run.violation('head:save-raised:concurrent-savers', 'two threads save the position at the same time: ' + e, dict(case=case))
+            try:
+                final = open(head).read()
+            except Exception as e:      # noqa
+                final = 'unreadable %r' % (e,)
+            if not errs and all(valid(t) for t in snap):
+                if not valid(final):
+                    run.violation('head:corrupt:concurrent-savers-final', 'after both saves the head file holds %r' % final[:60], dict(case=case))
+                else:
+                    rd.close()
+                    rd2 = RollLog(logs, mode, rdonly=True, head=head, utc=True)
+                    rest = []
+                    for _ in range(len(recs)):
+                        x = rd2.read()
+                        if x is None:
+                            break
+                        rest.append(x)
+                    if rest != recs[k1 + k2:]:
+                        run.violation('head:skip-or-repeat:concurrent-savers', 'restart after two concurrent saves delivers %r, not yet read were %r'
+                                      % (rest, recs[k1 + k2:]), dict(case=case))
+                    rd2.close()
+            run.count('family:two-savers')
+            run.seen(('two-savers', mode, k1, k2, i), nontrivial=bool(snap) and bool(threads))
+        finally:
+            K.CONC.pre_rename = K.CONC.post_rename = K.CONC.tmp_opened = None
+            shutil.rmtree(root, ignore_errors=True)
+
 def main():
     run = vlib.Run('C14')
     rng = run.rng
@@ -141,6 +245,7 @@ def main():
         if i < 1:
             run.samples.append(dict(family='random', header={k: case[k] for k in ('mode', 'file_size', 'total_size', 'regime')},
                                     ops=case['ops'][:14], violations=[v[0] for v in orc.viol]))
+    two_savers(run, rng, run.n(12, 100))
     run.model_disagree('log', IMPORTS, 'run_log', 'hdr * list op', lits, shard=run.n(25, 40))
     for k, n in seen_keys.items():
         run.count('violation:' + k, n)
@@ -148,7 +253,8 @@ def main():
     run.partial = ['power loss (no fsync: the rename may reach the disk before the data) is outside the process-crash model',
                    'C14_no_skip is proved for file names that increase over the life of the directory and are positive '
                    '(the two refuted corner cases of C13 also let a restarted reader miss a file)',
-                   'a crash is injected at the file-system calls of write_head and between public calls, not inside read()']
+                   'a crash is injected at the file-system calls of write_head and between public calls, not inside read()',
+                   'two threads saving at once: one forced interleaving (second saver started at the first saver\'s rename and held right after creating its temp file), oracle only - the model is sequential']
     run.assumptions = ['rename within one directory is atomic (POSIX)', 'one writer per directory',
                        'the clock at restart is later than the newest log file (the constructor refuses otherwise, by design)']
     run.trusted = ['the crash shim (corr_C13.shim_open / OsProxy) stands for a process death at that system call']
